@@ -19,6 +19,8 @@ type Scenario struct {
 	Stubs      []string
 	Run        func(t *testing.T, c *Case, keep bool) Outcome // nil = Execute
 	FaultKinds []string
+	// NonTrivialProbe, when set, defines non-trivial runs: the probe fired at least once.
+	NonTrivialProbe string
 }
 
 var pipelineGroups = [][]string{
@@ -105,7 +107,7 @@ func init() {
 	p12.WLongTxn = 4
 	p12.WIter = 3
 	p12.Groups = [][]string{nil, {"client", "compactor", "flusher", "subcompact", "builder"}, {"client", "compactor", "flusher", "subcompact", "builder", "txn", "writer", "doWrites"}}
-	register(&Scenario{Prop: "C12", Family: "K", Level: "exploration", Profile: p12,
+	register(&Scenario{Prop: "C12", Family: "K", Level: "exploration", Profile: p12, NonTrivialProbe: "compaction_done",
 		Gen:  func(t *rapid.T) *Case { return GenCase(t, p12) },
 		Rule: "clients (incl. long-running transactions opened before compactions) read and write <=10 colliding keys on a DB pre-filled to 1-12 memtables worth of versions and tombstones, with 2-4 real compactor goroutines (tiny tables/levels so that L0->Lbase, L0->L0, Ln->Ln+1, split sub-compactions and L0 stalls occur), every compaction phase (pick, build, MANIFEST, replace, delete) a schedule point and seeded clock jumps (50ms..61min) that age tables; every read (Get + iterators) must equal the never-forgetting MVCC model. non-trivial = run in which >=1 compaction completed",
 	})
@@ -120,7 +122,7 @@ func init() {
 	p13.TTL = true
 	p13.WLongTxn = 4
 	p13.Groups = p12.Groups
-	register(&Scenario{Prop: "C13", Family: "K", Level: "exploration", Profile: p13,
+	register(&Scenario{Prop: "C13", Family: "K", Level: "exploration", Profile: p13, NonTrivialProbe: "compaction_done",
 		Gen: func(t *rapid.T) *Case {
 			c := GenCase(t, p13)
 			for ci := range c.Clients {
@@ -133,6 +135,80 @@ func init() {
 			return c
 		},
 		Rule: "as C12 with NumVersionsToKeep in {1,2,3,inf}, WithDiscard, TTL and deletes; AllVersions/NewKeyIterator results must (a) be a subsequence of the written versions and (b) contain every version above the highest discard watermark any compaction used so far plus, at or below it, the newest NumVersionsToKeep versions per key cut at the first delete/expired/discard-earlier entry. non-trivial = run with >=1 completed compaction",
+	})
+	// C05 iterators over layouts produced by flush + compaction
+	p5 := profT("K-C05")
+	p5.Compaction = true
+	p5.MaxOps = 24
+	p5.MaxKeys = 12
+	p5.WIter = 10
+	p5.WGet = 1
+	p5.WDel = 3
+	p5.Groups = [][]string{{"client", "compactor", "flusher", "subcompact", "builder"}}
+	p5b := profT("T-C05")
+	p5b.MaxKeys = 12
+	p5b.WIter = 10
+	p5b.WGet = 1
+	p5b.WDel = 3
+	register(&Scenario{Prop: "C05", Family: "K", Level: "exploration", Profile: p5,
+		Gen: func(t *rapid.T) *Case {
+			if rapid.Bool().Draw(t, "with_compaction") {
+				return GenCase(t, p5)
+			}
+			return GenCase(t, p5b)
+		},
+		Rule: "iterator-heavy scripts (forward/reverse, Prefix, Seek to existing keys / key+0x00 / key+0xff, AllVersions, SinceTs, NewKeyIterator, prefetch on/off with sizes 0-100, early stop + re-Seek) over <=12 keys that are prefixes of each other and contain 0x00/0xff, with data spread over memtables, L0 and deeper levels by pre-fill + real flushes/compactions; oracle: exact item sequence of the model (without compaction) or subsequence-of-written + retention lower bound (AllVersions with compaction). non-trivial = a checked iterator that returned >=2 items, or a run with >=1 completed compaction",
+	})
+	// C06 values and metadata wherever stored
+	p6 := profT("T-C06")
+	p6.TTL = true
+	p6.Discard = true
+	p6.WSet = 10
+	p6.Compress, p6.Encrypt = true, true
+	register(&Scenario{Prop: "C06", Family: "T", Level: "exploration", Profile: p6,
+		Gen: func(t *rapid.T) *Case {
+			c := GenCase(t, p6)
+			if rapid.Bool().Draw(t, "dynamic_threshold") {
+				c.Cfg.VLogPercentile = rapid.SampledFrom([]float64{0.5, 0.75, 0.99}).Draw(t, "vlog_pct")
+			}
+			return c
+		},
+		Rule: "value sizes drawn around the static value threshold (th-1, th, th+1, 2th, ...) and, with VLogPercentile on, around the moving one (the threshold listener goroutine runs while entries are between checkSize, vlog write and memtable write); every read path (Get+Value, Get+ValueCopy, prefetching and non-prefetching iteration, AllVersions) compares value bytes, user meta, expiry, version and the discard-earlier flag with what was written; compression/encryption/caches randomised. non-trivial as C01",
+	})
+	// C33 expiry
+	p33 := profT("K-C33")
+	p33.Compaction = true
+	p33.TTL = true
+	p33.MaxKeys = 6
+	p33.WIter = 4
+	p33.Groups = [][]string{{"client", "compactor", "flusher", "subcompact", "builder"}, nil}
+	register(&Scenario{Prop: "C33", Family: "K", Level: "exploration", Profile: p33, NonTrivialProbe: "expiry_crossed",
+		Gen: func(t *rapid.T) *Case {
+			c := GenCase(t, p33)
+			// TTLs of 1-5 s with clock jumps of 1 s / 11 s so that expiry is crossed mid-run
+			c.Sched.ClockMs = []int{50, 1000, 1000, 2000, 11000}
+			for ci := range c.Clients {
+				for oi := range c.Clients[ci] {
+					op := &c.Clients[ci][oi]
+					if op.K == "set" && oi%2 == 0 && op.TTL == 0 {
+						op.TTL = 1 + oi%5
+					}
+				}
+			}
+			return c
+		},
+		Rule: "entries with TTL 1-3600 s mixed with deletes and non-expiring overwrites; seeded clock jumps (50 ms..11 s) cross expiry times while transactions are open; Get and iterators (all options) must equal the model evaluated at the simulated time of the read, before and after flush/compaction. non-trivial = run in which >=1 checked read found its newest version expired (expiry crossed by the simulated clock)",
+	})
+	// C34 oracle and watermarks
+	p34 := profT("T-C34")
+	p34.MaxClients = 5
+	p34.MaxOps = 30
+	p34.WGet, p34.WIter = 2, 0
+	p34.WCommitWith = 3
+	p34.Groups = [][]string{nil, {"client", "txn", "wm", "txncb"}, {"client", "txn", "wm", "txncb", "doWrites", "writer"}}
+	register(&Scenario{Prop: "C34", Family: "T", Level: "exploration", Profile: p34, NonTrivialProbe: "begin_while_commit_in_flight",
+		Gen:  func(t *rapid.T) *Case { return GenCase(t, p34) },
+		Rule: "2-5 clients doing short transactions with dense schedule points in readTs/newCommitTs/doneCommit and in both WaterMark.process goroutines; invariants: (i) when NewTransaction returns readTs no commit <= readTs is still in flight and every acknowledged commit is <= readTs, (ii) at every watermark advance d0->d1 no index in (d0,d1] has Begin without Done, (iii) every waiter is released (deadlock detector + step budget). non-trivial = run in which a transaction began while another commit was in flight",
 	})
 	// C04 own writes
 	p4 := profT("T-C04")
